@@ -195,6 +195,11 @@ def derives_attr(expr, binds, attr_suffix, depth=3):
 
 
 def run(ctx):
+    _run_main(ctx)
+    window_fields_parsed_from_their_attributes(ctx)
+
+
+def _run_main(ctx):
     F = ctx.facts
     ctx.explanation = ("K3: every release sink of the 13 inventoried authentication / credential-release entry points is under the positive literal of the "
                        "validity-window check; K4: the checks are two-sided window tests fed from AccountValidFrom/AccountExpire; K1: those attributes are "
@@ -376,3 +381,22 @@ def run(ctx):
                   "only application_auth_ldap (entry point 5) verifies application passwords",
                   f"{c} calls Account::verify_application_password (which builds an LDAP bound token) outside application_auth_ldap: not covered by that entry point's validity check")
     ctx.exhaustive = True
+
+
+# ---------------------------------------------------------------------------------------------------------------------
+# The window that every front end tests is the pair (valid_from, expire) of the parsed account structs. Each struct parser
+# must read valid_from from account_valid_from and expire from account_expire (both Option<OffsetDateTime>: a swap or a copy
+# compiles), and the RADIUS secret from radius_secret (shared engine rules/lib/x_fields.py).
+
+def window_fields_parsed_from_their_attributes(ctx):
+    from .lib.x_fields import check_field_sources
+    A = "kanidmd_lib::idm::account::Account"
+    W = {"valid_from": {"AccountValidFrom"}, "expire": {"AccountExpire"}}
+    table = [(A + "::" + f, A, dict(W, radius_secret={"RadiusSecret"}))
+             for f in ("try_from_entry_ro", "try_from_entry_with_policy", "try_from_entry_rw", "try_from_entry_reduced")]
+    table.append(("kanidmd_lib::idm::radius::RadiusAccount::try_from_entry_reduced", "kanidmd_lib::idm::radius::RadiusAccount",
+                  dict(W, radius_secret={"RadiusSecret"})))
+    table.append(("kanidmd_lib::idm::serviceaccount::ServiceAccount::try_from_entry_rw", "kanidmd_lib::idm::serviceaccount::ServiceAccount", dict(W)))
+    n = check_field_sources(ctx, LIB, "K5-window-fields", table,
+                            "the validity window every front end tests is then not the one the administrator set (an expired account keeps authenticating)")
+    ctx.floor("K5-window-fields", "window / secret fields traced to their attributes", n, 17)
